@@ -82,6 +82,23 @@ class ContinueSig(Exception):
     pass
 
 
+class SuspendSig(Exception):
+    """raised by an `await` (contract kwarg await_hook, or awaiting a PENDING coroutine) on something that is still
+    pending: the enclosing coroutine does not run any further in this activation (no `finally` runs, exactly like a
+    suspended CPython coroutine).  Caught where the coroutine function was *called* (bodies of `async def` are executed
+    eagerly at the call): the call then evaluates to PENDING."""
+
+
+class PendingCoroutine:
+    """value of a call of an `async def` whose body suspended at an await (see SuspendSig)"""
+
+    def __repr__(self):
+        return 'PENDING'
+
+
+PENDING = PendingCoroutine()
+
+
 # ---------------------------------------------------------------------------
 # small z3 helpers
 # ---------------------------------------------------------------------------
@@ -425,8 +442,16 @@ class Path:
         o = lv.options[i]
         from . import contracts as _C
 
+        first_new = self.next_oid
         v = self.cfg.fresh(self, o, lv.hint) if isinstance(o, _C.T) else self.import_native(o)
         self.lazy[lv.lid] = v
+        # objects of a lazily chosen alternative belong to the pre-state: the counter-model of the path is concretised
+        # from prestate['heap'] (replay / CPython cross-check), which was copied before this alternative was chosen
+        pre = getattr(self, 'prestate', None)
+        if pre is not None:
+            for oid in range(first_new, self.next_oid):
+                if oid in self.heap and oid not in pre['heap']:
+                    pre['heap'][oid] = self.heap[oid].clone()
         return v
 
     def decide(self, conds, why=''):
@@ -1451,6 +1476,8 @@ class Path:
 
     def ev_Await(self, n):
         v = self.eval(n.value)
+        if v is PENDING:
+            raise SuspendSig()  # awaiting a coroutine that is itself suspended
         return self.cfg.await_value(self, v, n)
 
     def ev_Starred(self, n):
@@ -1687,6 +1714,13 @@ class Path:
                 self.exec_block(f.node.body)
             except ReturnSig as r:
                 return r.value
+            except SuspendSig:
+                # (func_stack[0] is the pseudo activation of the entry, func_stack[1] the entry itself)
+                if isinstance(f.node, ast.AsyncFunctionDef) and len(self.func_stack) > 2:
+                    return PENDING  # the rest of the body belongs to a later activation
+                if len(self.func_stack) > 2:
+                    raise
+                raise Unsupported('the coroutine under contract suspends at an await on a pending awaitable')
             return None
         finally:
             self.func_stack.pop()
